@@ -5,6 +5,7 @@ from ..world import norm, objpath
 from . import c02, c01, c06
 import modelx as mx
 from modelx.core.cells import Cells
+from modelx.core.errors import DeletedObjectError
 
 
 def swarm(rng):
@@ -12,6 +13,10 @@ def swarm(rng):
     cfg.update({"n_spaces": rng.choice([1, 2, 3]), "n_cells": rng.choice([3, 4, 5, 6]), "p_uncached": 0.0, "recalc": False,
                 "p_selfrec": 0.6, "n_targets": rng.choice([1, 1, 2, 3]), "step_size": rng.choice([1, 2, 3, 4, 5, 8, 1000]),
                 "prior": rng.random() < 0.4, "n_inputs": rng.choice([0, 0, 1, 2])})
+    if rng.random() < 0.4:
+        # formulas that reach into ItemSpaces (created while the plan is being traced)
+        cfg.update({"items": True, "p_sformula": rng.choice([0.5, 0.8]), "n_spaces": rng.choice([2, 3]), "max_depth": 2,
+                    "prefer_call": ["child_item", "other_item"]})
     return cfg
 
 
@@ -102,6 +107,26 @@ class C16(PropBase):
                 for n in gen.visible_cells(s):
                     for k, v in mach.world.held(s.path(), n).items():
                         out[(s.path(), n, k)] = v
+            # values inside the ItemSpaces that exist (none is created by looking)
+
+            def dyn(sp):
+                p = probe._path(sp)
+                for n, c in sp.cells.items():
+                    np_ = len(c.parameters)
+                    for k in list(c):
+                        out[(p, n, tuple(k) if np_ != 1 else (k,))] = norm(c[k])
+                for ch in sp.spaces.values():
+                    dyn(ch)
+                for it in sp.itemspaces.values():
+                    dyn(it)
+            for s in mach.ref.all_spaces():
+                try:
+                    live = mach.world.space(s.path())
+                    items = list(live.itemspaces.values())
+                except Exception:
+                    continue
+                for it in items:
+                    dyn(it)
             return out
         before = held()
         # direct values and needed elements by the evaluator (fresh memo + inputs only)
@@ -130,7 +155,12 @@ class C16(PropBase):
             if act == "calc":
                 nblocks += 1
                 for n in ns:
-                    e = el_of(n)
+                    try:
+                        e = el_of(n)
+                    except DeletedObjectError:
+                        # not judged by itself: what such a plan does when executed is (values, repeated executions, leftovers)
+                        ctx.count("plan_nodes_of_deleted_objects", 1, "reach")
+                        continue
                     if e in calc_seen:
                         raise Violation("C16/element-in-two-calc-steps", {"element": repr(e)})
                     calc_seen[e] = nblocks
